@@ -222,7 +222,15 @@ func genEpisode(r *hx.Rng, ip *interp, run func(string) string, n int, st *genSt
 			if r.Chance(1, 20) {
 				vrf = []string{"-", "0000"}[r.Intn(2)]
 			}
-			run(fmt.Sprintf("apply %s %s %d %d %s %s %s", h(e.src()), h(e.id()), typ, pickStake(r, t), h(ac), pk, vrf))
+			id := e.id()
+			if kid, _, _, ktyp, ok := e.knownMiner(); ok && r.Chance(1, 5) {
+				// re-apply a registered id in the OTHER registry (the duplicate-id check must look at both)
+				id = kid
+				typ = 1 - int(ktyp)
+				t = typ
+				st.inc("apply-existing-id-other-type")
+			}
+			run(fmt.Sprintf("apply %s %s %d %d %s %s %s", h(e.src()), h(id), typ, pickStake(r, t), h(ac), pk, vrf))
 		case k < 45:
 			id, _, _, _, ok := e.knownMiner()
 			if !ok || r.Chance(1, 5) {
@@ -301,6 +309,55 @@ func genEpisode(r *hx.Rng, ip *interp, run func(string) string, n int, st *genSt
 		case k < 87:
 			kinds := []string{"apply-json", "add-json", "chacc-json", "refund-json", "refund-amount"}
 			run(fmt.Sprintf("bad %s %s %d", kinds[r.Intn(len(kinds))], h(e.src()), r.Intn(16)))
+		case k < 90 && !search:
+			// stake opcodes executed by a contract that is (or is not) some miner's account
+			_, stake, ac, typ, ok := e.knownMiner()
+			kc := ac
+			if !ok || len(ac) != 20 || r.Chance(1, 6) {
+				kc = e.accts[0]
+			}
+			min := uint64(400)
+			if typ == 1 {
+				min = 2000
+			}
+			var amt string
+			switch r.Intn(9) {
+			case 0:
+				amt = "0"
+			case 1:
+				amt = "900000000000000000" // 0.9
+			case 2:
+				amt = "1" + e18
+			case 3:
+				amt = "1500000000000000000"
+			case 4:
+				amt = strconv.FormatUint(stake, 10) + e18
+			case 5:
+				if stake >= min {
+					amt = strconv.FormatUint(stake-min, 10) + e18
+				} else {
+					amt = "3" + e18
+				}
+			case 6:
+				if stake >= min {
+					amt = strconv.FormatUint(stake-min+1, 10) + "000000000000000001"
+				} else {
+					amt = "2" + e18
+				}
+			case 7:
+				amt = "18446744073709551616" + e18 // whole tokens overflow uint64
+			default:
+				amt = strconv.Itoa(r.Intn(5000)) + "5" + e18[1:]
+			}
+			switch r.Intn(5) {
+			case 0, 1:
+				run(fmt.Sprintf("vmstake %s %s %s", h(e.accts[0]), h(kc), amt))
+			case 2, 3:
+				run(fmt.Sprintf("vmunstake %s %s %s", h(e.accts[0]), h(kc), amt))
+			default:
+				run(fmt.Sprintf("vmunstakeall %s %s", h(e.accts[0]), h(kc)))
+			}
+			st.inc("stake-opcode")
 		default:
 			next := ip.w.height + 1
 			if r.Chance(1, 4) {
